@@ -11,7 +11,9 @@ META = dict(
     text="One keep-alive connection between a real ioflo Patron and a real ioflo Valet serving a WSGI app. The client queues N "
          "requests (N = 1, 2, 3; all GET or all POST with a body); request i asks for response kind k_i in {fixed: Content-Length "
          "and one body piece, stream: a generator without a length yielding several pieces (one of them empty), empty: no length "
-         "and an empty iterable}; all 3 + 9 + 27 kind sequences. Schedule: the driver alternates Patron.serviceAll / "
+         "and an empty iterable}; all 3 + 9 + 27 kind sequences, plus 18 sequences with the "
+         "body-less statuses 204 / 304 answered without Content-Length (alone and every pair with any kind, GET; thorough also "
+         "with POST and (k, 204|304, k) triples). Schedule: the driver alternates Patron.serviceAll / "
          "Valet.serviceAll; servicing the same side again costs one deviation; every recv on either side may return 1 byte, half, "
          "or all but one byte of what is waiting instead of everything (one deviation each); every request may reach the server "
          "in two pieces with a server pass in between - the client socket accepts it only up to a cut inside the request line, "
@@ -33,6 +35,7 @@ from mc import core, net, httpharness as hh
 
 PORT = 8080
 KINDS = ("fixed", "stream", "empty")
+BODILESS = {"204": "204 No Content", "304": "304 Not Modified"}      # answered without Content-Length, no body
 DATE = "Thu, 01 Jan 2026 00:00:00 GMT"
 
 
@@ -80,6 +83,9 @@ def make_app(calls):
                 yield tag
                 yield b":" + method + b":" + reqbody
             return gen()
+        if kind in BODILESS:
+            start(BODILESS[kind], [("Date", DATE)])
+            return []
         start("200 OK", [("Content-Type", "text/plain"), ("Date", DATE)])
         return []
     return app
@@ -90,7 +96,7 @@ def plan(kinds, method):
     for i, k in enumerate(kinds):
         path = "/%s/t%d" % (k, i)
         body = (b"b%d" % i) if method == "POST" else b""
-        out.append(dict(i=i, kind=k, path=path, body=body,
+        out.append(dict(i=i, kind=k, path=path, body=body, status=int(k) if k in BODILESS else 200,
                         expect=expected_body(k, method.encode(), b"t%d" % i, body)))
     return out
 
@@ -109,9 +115,9 @@ def wire_verdict(sent, reqs):
     if problem is None and len(rsps) != len(reqs):
         out.append(("wire-count", "%d requests but %d responses on the wire" % (len(reqs), len(rsps))))
     for rq, rs in zip(reqs, rsps):
-        if rs["status"] != 200 or rs["body"] != rq["expect"]:
-            out.append(("wire-wrong-response", "response %d on the wire: status %d body %r, expected 200 %r"
-                        % (rq["i"] + 1, rs["status"], rs["body"], rq["expect"])))
+        if rs["status"] != rq["status"] or rs["body"] != rq["expect"]:
+            out.append(("wire-wrong-response", "response %d on the wire: status %d body %r, expected %d %r"
+                        % (rq["i"] + 1, rs["status"], rs["body"], rq["status"], rq["expect"])))
             break
     return out
 
@@ -298,9 +304,9 @@ def execute(ch, mode, kinds, method, part, states):
                 viol.append(("mismatched-request", "response %d carries request rid=%r path=%r, expected rid=%d path=%r"
                              % (i + 1, rqd.get("rid"), rqd.get("path"), rq["i"], rq["path"])))
                 break
-            if r.get("status") != 200 or delivered[i] != rq["expect"]:
-                viol.append(("wrong-body", "response %d delivered with status %r body %r, the app produced %r for that request"
-                             % (i + 1, r.get("status"), delivered[i], rq["expect"])))
+            if r.get("status") != rq["status"] or delivered[i] != rq["expect"]:
+                viol.append(("wrong-body", "response %d delivered with status %r body %r, the app produced %d %r for that request"
+                             % (i + 1, r.get("status"), delivered[i], rq["status"], rq["expect"])))
                 break
             if bytes(r["body"]) != delivered[i]:
                 viol.append(("body-changed-after-delivery",
@@ -387,11 +393,21 @@ def configs():
     seqs = []
     for n in (1, 2, 3):
         seqs += list(itertools.product(KINDS, repeat=n))
+    # body-less statuses without Content-Length (the Responder frames them as an empty chunked body): alone, every
+    # pair with any kind, and in the middle of a triple
+    more = KINDS + tuple(BODILESS)
+    seqs += [(b,) for b in BODILESS]
+    seqs += [p for p in itertools.product(more, repeat=2) if set(p) & set(BODILESS)]
+    if core.TIER == "thorough":
+        seqs += [(k, b, k) for b in BODILESS for k in KINDS]
+    seqs.sort(key=len)
     cfgs = []
     for mode in ("patron", "burst"):
         for method in ("GET", "POST"):
             for kinds in seqs:
                 b = bound_for(mode, method, len(kinds))
+                if core.TIER != "thorough" and method == "POST" and set(kinds) & set(BODILESS):
+                    b = None            # body-less statuses with POST: thorough only
                 if b is not None:
                     cfgs.append((len(cfgs), mode, method, kinds, b))
     return cfgs
@@ -406,7 +422,7 @@ def run():
     bounds = {}
     for c in cfgs:
         bounds["%s %s N=%d" % (c[1], c[2], len(c[3]))] = c[4]
-    ck.coverage_extra = dict(deviation_bound=bounds, kind_sequences=39, modes=["patron", "burst"],
+    ck.coverage_extra = dict(deviation_bound=bounds, kind_sequences=len(set(c[3] for c in cfgs)), modes=["patron", "burst"],
                              methods=["GET", "POST"], configurations=len(cfgs), liveness_window_calls_per_request=STEPS_PER_REQ)
     ck.assumptions = [
         "socket doubles (mc/net.py) instead of loopback sockets; sends are accepted whole, a recv returns everything waiting or "
